@@ -32,6 +32,16 @@ Models ==
                              inputs |-> <<InD("x", <<DSym, DFix(1), DFix(3)>>)>>, outputs |-> <<"t", "y">>,
                              inits |-> [w |-> T("f32", <<2, 1, 2>>, <<1, -1, 2, 3>>), b |-> T("f32", <<2>>, <<10, 20>>)]],
                       axis |-> 0, sample |-> <<1, 3>>, oaxes |-> <<0, 0>>],
+    \* auto_pad with a stride: the padding is a function of the spatial extents only, never of the batch or channel extents
+    conv_same_stride |-> [g |-> [nodes |-> <<Nd("Conv", <<AS("auto_pad", "SAME_UPPER"), AIs("strides", <<2>>)>>, <<"x", "w", "b">>, <<"y">>),
+                                              Nd("Conv", <<AS("auto_pad", "SAME_LOWER"), AIs("strides", <<3>>)>>, <<"x", "w">>, <<"z">>)>>,
+                             inputs |-> <<InD("x", <<DSym, DFix(1), DFix(6)>>)>>, outputs |-> <<"y", "z">>,
+                             inits |-> [w |-> T("f32", <<2, 1, 3>>, <<1, -1, 2, 3, 0, -2>>), b |-> T("f32", <<2>>, <<10, 20>>)]],
+                      axis |-> 0, sample |-> <<1, 6>>, oaxes |-> <<0, 0>>],
+    conv2d_same_stride |-> [g |-> [nodes |-> <<Nd("Conv", <<AS("auto_pad", "SAME_UPPER"), AIs("strides", <<2, 3>>)>>, <<"x", "w">>, <<"y">>)>>,
+                             inputs |-> <<InD("x", <<DSym, DFix(2), DFix(4), DFix(5)>>)>>, outputs |-> <<"y">>,
+                             inits |-> [w |-> T("f32", <<1, 2, 3, 2>>, <<1, -1, 2, 3, 0, -2, 1, 1, -1, 2, 0, 1>>)]],
+                      axis |-> 0, sample |-> <<2, 4, 5>>, oaxes |-> <<0>>],
     reshapes |-> [g |-> [nodes |-> <<Nd("Transpose", <<AIs("perm", <<0, 2, 1>>)>>, <<"x">>, <<"t">>), Nd("Squeeze", <<>>, <<"t", "ax">>, <<"s">>),
                                       Nd("Unsqueeze", <<>>, <<"s", "ax2">>, <<"u">>)>>,
                          inputs |-> <<InD("x", <<DSym, DFix(1), DFix(3)>>)>>, outputs |-> <<"t", "s", "u">>,
